@@ -49,13 +49,14 @@ func AlphabetA(paths []string, contents []string, mkdirAll []string, removeAll [
 
 // SmallA: three paths, two contents.
 func SmallA() []ops.Op {
-	return AlphabetA([]string{"/a", "/b", "/a/c"}, []string{"", "xy"}, []string{"/a/c/d"}, []string{"/a", "/nope"}, true)
+	a := AlphabetA([]string{"/a", "/b", "/a/c"}, []string{"", "xy"}, []string{"/a/c/d"}, []string{"/a", "/nope"}, true)
+	return append(a, ops.Op{K: "rebuild"})
 }
 
 // FullA: DESIGN §6 C01 alphabet A.
 func FullA() []ops.Op {
 	a := AlphabetA([]string{"/a", "/b", "/a/c", "/b/c"}, []string{"", "x", "T600"}, []string{"/a/c/d", "/b/c"}, []string{"/a", "/b", "/a/c", "/nope"}, true)
-	a = append(a, ops.Op{K: "mkdir", P: "/a/c/d"}, ops.Op{K: "put", P: "/a/c/d", C: "x"}, ops.Op{K: "remove", P: "/a/c/d"})
+	a = append(a, ops.Op{K: "mkdir", P: "/a/c/d"}, ops.Op{K: "put", P: "/a/c/d", C: "x"}, ops.Op{K: "remove", P: "/a/c/d"}, ops.Op{K: "rename", P: "/a", Q: "/a/c/d"}, ops.Op{K: "rebuild"}, ops.Op{K: "reopen"})
 	return a
 }
 
@@ -179,7 +180,7 @@ func WAlphabet(names []string) []ops.Op {
 	return a
 }
 
-var WNames = []string{"a", "ab", "a_", "a%", "a b", "a.", "ä"}
+var WNames = []string{"a", "ab", "a_", "a%", "a%b", "a_c", "a b", "a.", "ä"}
 
 // HandleAlphabet: handle calls over tiny argument domains, relative to the initial content length l.
 func HandleAlphabet(l int, appendMode bool) []ops.Op {
@@ -382,6 +383,8 @@ func DeepAlphabet() []ops.Op {
 		{K: "put", P: "/p/f", C: "x"}, {K: "mkdir", P: "/p/f/sub"}, {K: "put", P: "/p/f/sub", C: "y"}, {K: "mkdirall", P: "/p/f/a/b"},
 		{K: "put", P: "/p/q/r/s/leaf", C: "deep"}, {K: "removeall", P: "/p/q"}, {K: "rename", P: "/p/q", Q: "/z"}, {K: "many", P: "/m"},
 		{K: "remove", P: "/m/c05"}, {K: "rename", P: "/m", Q: "/p/m"},
+		{K: "rename", P: "/p", Q: "/p/q/moved"}, {K: "rename", P: "/p/q", Q: "/p/q/r/s/t"}, {K: "rename", P: "/p", Q: "/p/moved"},
+		{K: "mkdirall", P: "/p/x/p"}, {K: "mkdir", P: "/p/x/p/y"}, {K: "put", P: "/p/x/p/q", C: "same names at two depths"},
 	}
 	return a
 }
